@@ -8,19 +8,35 @@ pub mod vsrc;
 #[path = "../../common/stubs.rs"]
 pub mod stubs;
 
+pub mod c01;
+pub mod c06;
 pub mod c07;
 pub mod c08;
+pub mod ast;
 pub mod c09;
+pub mod c10;
+pub mod c12;
+pub mod c17;
 pub mod c20;
+pub mod c21;
+pub mod c22;
+pub mod strdec;
 pub mod c32;
 pub mod c33;
 
 pub fn tables() -> Vec<(&'static str, vsrc::NativeFn)> {
     let mut t = Vec::new();
+    t.extend(c01::table());
+    t.extend(c06::table());
     t.extend(c07::table());
     t.extend(c08::table());
     t.extend(c09::table());
+    t.extend(c10::table());
+    t.extend(c12::table());
+    t.extend(c17::table());
     t.extend(c20::table());
+    t.extend(c21::table());
+    t.extend(c22::table());
     t.extend(c32::table());
     t.extend(c33::table());
     t
